@@ -867,6 +867,40 @@ func c09R4(r *Report) {
 // retractedBefore explores backwards from the store: each path must meet a retraction, a nil store to the
 // same field, or arrive through the false edge of `field != nil` (true edge of `field == nil`).
 func retractedBefore(st *ssa.Store, fv *types.Var, isRetract func(ssa.Instruction) bool) (bool, string) {
+	return retractedBeforeAt(st.Block(), instrIndex(st), fv, isRetract, 0)
+}
+
+var helperRetractsMemo = map[*ssa.Function]int{}
+
+// helperRetracts: every return of the package-local helper h is reached only after a retraction, a nil store or the
+// knowledge that the field is nil (forgetBitmap(peer)).
+func helperRetracts(h *ssa.Function, fv *types.Var, isRetract func(ssa.Instruction) bool, depth int) bool {
+	if h == nil || h.Blocks == nil || depth > 2 {
+		return false
+	}
+	switch helperRetractsMemo[h] {
+	case 1:
+		return true
+	case 2, 3:
+		return false
+	}
+	helperRetractsMemo[h] = 3
+	ok := len(returnsOf(h)) > 0
+	for _, ret := range returnsOf(h) {
+		if good, _ := retractedBeforeAt(ret.Block(), instrIndex(ret), fv, isRetract, depth+1); !good {
+			ok = false
+			break
+		}
+	}
+	if ok {
+		helperRetractsMemo[h] = 1
+	} else {
+		helperRetractsMemo[h] = 2
+	}
+	return ok
+}
+
+func retractedBeforeAt(startB *ssa.BasicBlock, startIdx int, fv *types.Var, isRetract func(ssa.Instruction) bool, depth int) (bool, string) {
 	seen := map[*ssa.BasicBlock]bool{}
 	bad := ""
 	var walk func(b *ssa.BasicBlock, upto int) bool
@@ -901,6 +935,13 @@ func retractedBefore(st *ssa.Store, fv *types.Var, isRetract func(ssa.Instructio
 					return true
 				}
 			}
+			if c, ok := in.(*ssa.Call); ok {
+				if h := c.Call.StaticCallee(); h != nil && !c.Call.IsInvoke() && h.Blocks != nil && funcPkgPath(h) == funcPkgPath(startB.Parent()) && h != startB.Parent() {
+					if helperRetracts(h, fv, isRetract, depth) {
+						return true
+					}
+				}
+			}
 		}
 		if len(b.Preds) == 0 {
 			bad = "function entry"
@@ -920,7 +961,7 @@ func retractedBefore(st *ssa.Store, fv *types.Var, isRetract func(ssa.Instructio
 		}
 		return true
 	}
-	ok := walk(st.Block(), instrIndex(st))
+	ok := walk(startB, startIdx)
 	return ok, bad
 }
 
